@@ -147,11 +147,51 @@ fn bstr<const N: usize>(d: [u8; N], len: usize) -> ByteString {
     }
 }
 
+// ---- std stubs (environment models, -Z stubbing) -----------------------------------------------
+// CBMC's symbolic execution of core::str's Pattern/Searcher machinery (CharSearcher over memchr,
+// MultiCharEqSearcher over Chars/next_code_point) spends hours in pointer value-set
+// simplification even for 4-byte strings (DESIGN.md section 2). The three std entry points that
+// topic.rs uses are replaced by byte loops with the documented semantics for the only argument
+// values topic.rs passes: contains(['+','#']), starts_with('$'), and memchr (under split('/')).
+#[cfg(kani)]
+pub(crate) fn stub_str_contains<P>(s: &str, _p: P) -> bool {
+    // only instantiation in topic.rs: P = [char; 2] = ['+', '#']
+    let b = s.as_bytes();
+    let mut i = 0;
+    while i < b.len() {
+        if b[i] == b'+' || b[i] == b'#' {
+            return true;
+        }
+        i += 1;
+    }
+    false
+}
+#[cfg(kani)]
+pub(crate) fn stub_str_starts_with<P>(s: &str, _p: P) -> bool {
+    // only instantiation in topic.rs: P = char = '$'
+    let b = s.as_bytes();
+    !b.is_empty() && b[0] == b'$'
+}
+#[cfg(kani)]
+pub(crate) fn stub_memchr(x: u8, text: &[u8]) -> Option<usize> {
+    let mut i = 0;
+    while i < text.len() {
+        if text[i] == x {
+            return Some(i);
+        }
+        i += 1;
+    }
+    None
+}
+
 // ---- harnesses ------------------------------------------------------------------------------
 
 macro_rules! tp_valid_agree {
     ($name:ident, $n:expr, $uw:expr) => {
         vharness! {
+            #[kani::stub(str::contains, stub_str_contains)]
+            #[kani::stub(str::starts_with, stub_str_starts_with)]
+            #[kani::stub(core::slice::memchr::memchr, stub_memchr)]
             fn $name() unwind($uw) {
                 let (d, len) = any_ascii::<$n>();
                 let s = bstr(d, len);
@@ -169,6 +209,8 @@ macro_rules! tp_valid_agree {
 }
 //@ props: C18
 //@ tier: quick
+//@ stubs: yes
+//@ unwindset: memcmp=3 CharSearcher=2
 //@ functions: topic::is_valid, TryFrom<ByteString> for TopicFilter, TopicFilter::is_valid, TopicFilterLevel::is_valid, is_system, recover_bstr
 //@ bounds: all ASCII (1..=127) strings of length 0..=4
 //@ assumes: bytes in 1..=127
@@ -176,6 +218,8 @@ macro_rules! tp_valid_agree {
 tp_valid_agree!(tp_valid_agree_4, 4, 7);
 //@ props: C18
 //@ tier: thorough
+//@ stubs: yes
+//@ unwindset: memcmp=3 CharSearcher=2
 //@ functions: topic::is_valid, TryFrom<ByteString> for TopicFilter, TopicFilter::is_valid
 //@ bounds: all ASCII (1..=127) strings of length 0..=6
 //@ assumes: bytes in 1..=127
@@ -186,8 +230,13 @@ tp_valid_agree!(tp_valid_agree_6, 6, 9);
 vharness! {
     //@ props: C18
     //@ tier: quick
+    //@ stubs: yes
+    //@ unwindset: memcmp=3 CharSearcher=2
     //@ expect: fail
     //@ desc: reachability twin of tp_valid_agree (claims every string is an invalid filter)
+    #[kani::stub(str::contains, stub_str_contains)]
+    #[kani::stub(str::starts_with, stub_str_starts_with)]
+    #[kani::stub(core::slice::memchr::memchr, stub_memchr)]
     fn twin_tp_valid_agree() unwind(7) {
         let (d, len) = any_ascii::<4>();
         let s = bstr(d, len);
@@ -198,6 +247,9 @@ vharness! {
 macro_rules! tp_match {
     ($name:ident, $nf:expr, $nt:expr, $uw:expr) => {
         vharness! {
+            #[kani::stub(str::contains, stub_str_contains)]
+            #[kani::stub(str::starts_with, stub_str_starts_with)]
+            #[kani::stub(core::slice::memchr::memchr, stub_memchr)]
             fn $name() unwind($uw) {
                 let (fd, fl) = any_ascii::<$nf>();
                 let (td, tl) = any_ascii::<$nt>();
@@ -222,6 +274,8 @@ macro_rules! tp_match {
 }
 //@ props: C18
 //@ tier: quick
+//@ stubs: yes
+//@ unwindset: memcmp=3 CharSearcher=2
 //@ functions: TopicFilter::matches_topic, match_topic, MatchLevel for AsRef<str>, is_system, TryFrom<ByteString> for TopicFilter
 //@ bounds: all valid ASCII filters of length 1..=4 x all wildcard-free ASCII topics of length 1..=4
 //@ assumes: bytes in 1..=127; filter valid per section 4.7.1 oracle; topic non-empty and wildcard free
@@ -230,6 +284,8 @@ macro_rules! tp_match {
 tp_match!(tp_match_4_4, 4, 4, 8);
 //@ props: C18
 //@ tier: thorough
+//@ stubs: yes
+//@ unwindset: memcmp=3 CharSearcher=2
 //@ functions: TopicFilter::matches_topic, match_topic, MatchLevel for AsRef<str>
 //@ bounds: all valid ASCII filters of length 1..=5 x all wildcard-free ASCII topics of length 1..=5
 //@ assumes: bytes in 1..=127; filter valid; topic non-empty and wildcard free
@@ -240,8 +296,13 @@ tp_match!(tp_match_5_5, 5, 5, 9);
 vharness! {
     //@ props: C18
     //@ tier: quick
+    //@ stubs: yes
+    //@ unwindset: memcmp=3 CharSearcher=2
     //@ expect: fail
     //@ desc: reachability twin of tp_match (claims nothing ever matches)
+    #[kani::stub(str::contains, stub_str_contains)]
+    #[kani::stub(str::starts_with, stub_str_starts_with)]
+    #[kani::stub(core::slice::memchr::memchr, stub_memchr)]
     fn twin_tp_match() unwind(7) {
         let (fd, fl) = any_ascii::<3>();
         let (td, tl) = any_ascii::<3>();
@@ -257,6 +318,9 @@ vharness! {
 macro_rules! tp_cover_sound {
     ($name:ident, $n:expr, $uw:expr) => {
         vharness! {
+            #[kani::stub(str::contains, stub_str_contains)]
+            #[kani::stub(str::starts_with, stub_str_starts_with)]
+            #[kani::stub(core::slice::memchr::memchr, stub_memchr)]
             fn $name() unwind($uw) {
                 let (fd, fl) = any_ascii::<$n>();
                 let (gd, gl) = any_ascii::<$n>();
@@ -280,6 +344,8 @@ macro_rules! tp_cover_sound {
 }
 //@ props: C18
 //@ tier: quick
+//@ stubs: yes
+//@ unwindset: memcmp=3 CharSearcher=2
 //@ functions: TopicFilter::matches_filter, match_topic, match_level_impl, TryFrom<ByteString> for TopicFilter
 //@ bounds: all triples (covering filter, covered filter, topic), each ASCII of length 1..=3
 //@ assumes: bytes in 1..=127; both filters valid, topic valid (section 4.7.1 oracle)
@@ -288,6 +354,8 @@ macro_rules! tp_cover_sound {
 tp_cover_sound!(tp_cover_sound_3, 3, 7);
 //@ props: C18
 //@ tier: thorough
+//@ stubs: yes
+//@ unwindset: memcmp=3 CharSearcher=2
 //@ functions: TopicFilter::matches_filter, match_topic, match_level_impl
 //@ bounds: all triples, each ASCII of length 1..=4
 //@ assumes: bytes in 1..=127; both filters valid, topic valid
@@ -298,6 +366,9 @@ tp_cover_sound!(tp_cover_sound_4, 4, 8);
 macro_rules! tp_display_rt {
     ($name:ident, $n:expr, $uw:expr) => {
         vharness! {
+            #[kani::stub(str::contains, stub_str_contains)]
+            #[kani::stub(str::starts_with, stub_str_starts_with)]
+            #[kani::stub(core::slice::memchr::memchr, stub_memchr)]
             fn $name() unwind($uw) {
                 let (fd, fl) = any_ascii::<$n>();
                 vk::assume(spec_valid_filter(&fd[..fl]));
@@ -328,6 +399,8 @@ macro_rules! tp_display_rt {
 }
 //@ props: C18
 //@ tier: quick
+//@ stubs: yes
+//@ unwindset: memcmp=3 CharSearcher=2
 //@ functions: WriteTopicExt::write_topic, write_level, TryFrom<ByteString> for TopicFilter, PartialEq for TopicFilter
 //@ bounds: all valid ASCII filters of length 1..=4
 //@ assumes: bytes in 1..=127; filter valid
